@@ -8,7 +8,8 @@ import re as _re
 import string
 from typing import Dict, List, Optional, Tuple
 
-from ..memo import check_memo_keys
+from ..memo import check_memo_keys, check_cached_returns
+from ..callgraph import SRC_ISLA
 from ..core import Unrecognised, NotConstant, call_name, calls_in, facts, fold, has_fact, parent, site, src, walk_local
 
 LANG = "src/isla/language.py"
@@ -218,8 +219,57 @@ def rule_b5(ctx):
     ctx.inventory["memo_sites"] = n
 
 
+HELPERS_ = "src/isla/helpers.py"
+
+
+def rule_b7(ctx):
+    """Symbol classification agrees with tokenisation: expansions are split with RE_NONTERMINAL (`<` non-blank... `>`), so is_nonterminal must use the same
+    pattern - a terminal such as `<dir C:\\new>` (with a blank) is NOT a nonterminal and has to be printed as a quoted, escaped string."""
+    f = ctx.repo.func(HELPERS_, "is_nonterminal", "C11.B7")
+    c = f"{HELPERS_}:is_nonterminal"
+    rets = [r for r in walk_local(f) if isinstance(r, ast.Return)]
+    if len(rets) != 1:
+        raise Unrecognised("C11.B7", c, "expected a single return")
+    t = " ".join(src(rets[0].value).split())
+    if t in ("RE_NONTERMINAL.match(s)", "RE_NONTERMINAL.fullmatch(s)", "bool(RE_NONTERMINAL.match(s))", "bool(RE_NONTERMINAL.fullmatch(s))", "RE_NONTERMINAL.match(s) is not None", "RE_NONTERMINAL.fullmatch(s) is not None"):
+        ctx.ok("B7-symbol-classification", c, "classification by the tokenisation pattern", site(rets[0]), t)
+    elif "RE_NONTERMINAL" not in t and ("'<'" in t or '"<"' in t or "startswith" in t):
+        ctx.viol("B7-symbol-classification", c, "classification by the tokenisation pattern", site(rets[0]),
+                 f"is_nonterminal is decided by delimiters only (`{t[:70]}`): a terminal that starts with '<', ends with '>' and contains a blank or another angle bracket is treated as a nonterminal, "
+                 "so unparse_grammar prints it raw (unquoted, unescaped) and the re-parsed grammar has a different language")
+    else:
+        raise Unrecognised("C11.B7", c, f"classification `{t[:80]}` not understood")
+    m = ctx.repo.module(HELPERS_, "C11.B7")
+    consts = m.constants()
+    if "RE_NONTERMINAL" not in consts or "(<[^<> ]*>)" not in src(consts["RE_NONTERMINAL"]):
+        raise Unrecognised("C11.B7", f"{HELPERS_}:RE_NONTERMINAL", "nonterminal pattern changed")
+    ctx.ok("B7-symbol-classification", f"{HELPERS_}:RE_NONTERMINAL", "pattern `<` non-blank non-bracket* `>`", site(consts["RE_NONTERMINAL"]), "(<[^<> ]*>)")
+
+
+def rule_b8(ctx):
+    """parse_bnf hands the text to the lexer unchanged (any pre-processing would have to respect the string-literal escapes of the grammar)."""
+    f = ctx.repo.func(LANG, "parse_bnf", "C11.B8")
+    c = f"{LANG}:parse_bnf"
+    lx = [x for x in calls_in(f) if call_name(x) == "bnfLexer"]
+    if len(lx) != 1:
+        raise Unrecognised("C11.B8", c, "bnfLexer(...) call not found")
+    a = " ".join(src(lx[0].args[0]).split())
+    p0 = f.args.args[0].arg
+    if a == f"InputStream({p0})":
+        rebound = [x for x in walk_local(f) if isinstance(x, (ast.Assign, ast.AugAssign)) and src(x.targets[0] if isinstance(x, ast.Assign) else x.target) == p0]
+        if rebound:
+            raise Unrecognised("C11.B8", c, f"the input text is re-bound before lexing (`{src(rebound[0])[:60]}`): a pre-processing step must be shown to respect string-literal escapes")
+        ctx.ok("B8-raw-text-lexed", c, "the lexer reads the text as given", site(lx[0]), a)
+    else:
+        raise Unrecognised("C11.B8", c, f"the lexer reads `{a[:60]}` instead of the given text: a pre-processing step (comment stripping, normalisation) must be shown to respect the string-literal escapes "
+                           "(`\"`, `\\\\`) of the BNF syntax - this cannot be vouched for structurally")
+
+
 def run(ctx) -> str:
+    ctx.guarded("B7", lambda: rule_b7(ctx))
+    ctx.guarded("B8", lambda: rule_b8(ctx))
     ctx.guarded("B5", lambda: rule_b5(ctx))
+    ctx.guarded("B6", lambda: ctx.inventory.__setitem__("cached_result_bindings", check_cached_returns(ctx, "B6-cached-mutable", SRC_ISLA, SRC_ISLA)))
     ctx.guarded("B1", lambda: rule_b1(ctx))
     ctx.guarded("B2", lambda: rule_b2(ctx))
     ctx.guarded("B3", lambda: rule_b3(ctx))
